@@ -12,6 +12,9 @@ PY_FORMS = ["py"]
 ND = ["nd", "ndF", "ndS", "ndD", "ndR", "ndFD", "ndTD", "ndB"]
 XOBJ = ["xobj-same", "xobj-other", "xobj-ctx", "xobj-kind", "xobj-nested", "xobj-slack", "ref-same", "ref-foreign", "xobj-view", "xobj-nested-view", "xobj-twin", "xobj-capslack"]
 CAP = ["cap"]
+# arrays of static items given by their dynamic extents (python int / small numpy integers), items assigned one by one afterwards
+LEN = ["len", "len-i8", "len-i16"]
+LEN_KIND = {"len": int, "len-i8": np.int8, "len-i16": np.int16}
 
 
 def cap_transform(t, v, c=None):
@@ -91,7 +94,41 @@ def forms_for(t, v, want):
         elif f == "cap":
             if has_str and xt.py_expressible(t, v):
                 out.append(f)
+        elif f in LEN:
+            if len_fields(t) and xt.py_expressible(t, v):
+                out.append(f)
     return out
+
+
+def len_array(t, maxdyn):
+    return t[0] == "A" and not xt.is_dyn(t[1]) and not xt.has_refs(t[1]) and 1 <= sum(d is None for d in t[2]) <= maxdyn
+
+
+def len_fields(t):
+    """where a type can be built from extents: () for a top-level array, field names for a struct (one dynamic axis each)"""
+    if len_array(t, 3):
+        return [()]
+    if t[0] == "St":
+        return [n for n, ft in t[1] if len_array(ft, 1)]
+    return []
+
+
+def len_arg(t, v, kind):
+    if t[0] == "A":
+        return xt.Lens(kind(n) for n, d in zip(v["shape"], t[2]) if d is None)
+    arg = xt.to_py(t, v)
+    for n in len_fields(t):
+        ft = dict(t[1])[n]
+        arg[n] = kind([x for x, d in zip(v[n]["shape"], ft[2]) if d is None][0])
+    return arg
+
+
+def len_fill(t, v, obj):
+    """assign every item of the arrays that were built from extents"""
+    for n in len_fields(t):
+        at, av, ah = (t, v, obj) if n == () else (dict(t[1])[n], v[n], getattr(obj, n))
+        for idx, iv in av["items"].items():
+            ah[idx if len(idx) > 1 else idx[0]] = xt.to_py(at[1], iv)
 
 
 def base_arg(t, v):
@@ -272,6 +309,8 @@ def execute(t, v, form, pname, salt=0):
     elif form == "cap":
         arg, o.expect = cap_transform(t, v)
         o.size_model = None
+    elif form in LEN:
+        arg = len_arg(t, v, LEN_KIND[form])
     elif form == "xobj-nested":
         arg = nested_xobj_arg(t, v)
     elif form == "xobj-nested-view":
@@ -323,6 +362,8 @@ def execute(t, v, form, pname, salt=0):
     try:
         with common.Watchdog(30):
             o.obj = xt.construct(t, arg, **pl.kw)
+            if form in LEN:
+                len_fill(t, v, o.obj)
     except common.Watchdog.Expired:
         o.error = RuntimeError("watchdog: constructor did not return within 30 s")
         return o
@@ -342,7 +383,7 @@ def case_id(t, vmode, form, pname):
 
 def feats(t, vmode, form, pname):
     f = xt.features(t)
-    f.update(vmode=vmode, form=form, place=pname, formclass=("nd" if form in ND else "xobj" if form in XOBJ else form))
+    f.update(vmode=vmode, form=form, place=pname, formclass=("nd" if form in ND else "xobj" if form in XOBJ else "len" if form in LEN else form))
     return f
 
 
